@@ -118,7 +118,11 @@ class SuperProxy:
         self.cls, self.inst = cls, inst
 
 
-class _Return(Exception):
+class _Flow(Exception):
+    pass
+
+
+class _Return(_Flow):
     def __init__(self, value):
         self.value = value
 
@@ -257,7 +261,20 @@ class Interp:
         m = getattr(self, 'st_' + type(st).__name__, None)
         if m is None:
             raise AnalysisError('unknown-construct', 'statement %s at %s' % (type(st).__name__, self.loc()))
-        m(st, fr)
+        try:
+            m(st, fr)
+        except (PyExc, AnalysisError) as e:
+            if getattr(e, 'loc', None) is None:
+                e.loc = self.loc()
+                e.path = tuple(self.callpath())
+            raise
+        except _Flow:
+            raise
+        except Exception as e:
+            if e.__class__.__name__ == 'DomainViolation' and getattr(e, 'loc', None) is None:
+                e.loc = self.loc()
+                e.path = tuple(self.callpath())
+            raise
 
     def st_Expr(self, st, fr):
         self.eval(st.value, fr)
@@ -375,7 +392,12 @@ class Interp:
             obj = self.eval(t.value, fr)
             idx = self.eval_index(t.slice, fr)
             cur = self.getitem(obj, idx)
-            new = self.binop(op, cur, self.eval(st.value, fr))
+            if self.libs.is_tensor(obj):
+                # t[idx] += v on a tensor: the in-place add goes through the view t[idx] into t's storage and
+                # the store writes it back onto itself; net effect t[idx] = t[idx] + v, an in-place write on t
+                new = self.binop(_BINOPS[type(st.op)], cur, self.eval(st.value, fr))
+            else:
+                new = self.binop(op, cur, self.eval(st.value, fr))
             self.setitem(obj, idx, new)
         elif isinstance(t, ast.Attribute):
             obj = self.eval(t.value, fr)
@@ -952,11 +974,11 @@ class Interp:
         return ret
 
 
-class _Break(Exception):
+class _Break(_Flow):
     pass
 
 
-class _Continue(Exception):
+class _Continue(_Flow):
     pass
 
 
